@@ -721,6 +721,7 @@ func (e *Enc) encodeAppend(args []ssa.Value, v *ssa.Call, st *State) {
 	}
 	// default model: the result never shares storage with its first argument
 	// (appending nothing to a nil slice yields nil)
+	e.assumed["append (default model: the result does not share storage with its first argument; freshness of an appended list is not proved under it)"] = true
 	nh := e.define(e.freshName(h.Name), h.Sort, fmt.Sprintf("(store %s %s %s)", E, fresh, afr))
 	st.set(h, nh)
 	e.setVal(v, "Slice", fmt.Sprintf("(ite (and (= %s 0) (= (s.arr %s) 0)) nilslice (mkslice %s 0 %s %s))", n, x, fresh, n, ncap))
